@@ -337,6 +337,10 @@ var hostileTTML = []string{
 	`<tt><head><styling><style id="a" style="b"/><style id="b" style="a"/></styling><layout><region id="r" style="a"/><region id="q" style="b" tts:origin="1% 2%"/></layout></head><body><div><p begin="1s" end="2s" region="r" style="b"><span region="q">x</span></p></div></body></tt>`,
 	`<tt><head><styling><style id="a" style="a"/><style id="c" style="a" tts:extent="1% 2%"/></styling><layout><region id="r" style="a"/><region id="q" style="c"/></layout></head><body><div region="q"><p begin="1s" end="2s" region="r">x</p></div></body></tt>`,
 	`<tt><head><styling><style id="a" style="b"/><style id="b" style="c"/><style id="c" style="b"/></styling><layout><region id="r" style="a"/></layout></head><body region="r"><div><p begin="1s" end="2s">x</p></div></body></tt>`,
+	`<tt ttp:frameRate="30" ttp:frameRateMultiplier="1000"><body><div><p begin="00:00:01:15" end="00:00:02:10">x</p></div></body></tt>`,
+	`<tt ttp:frameRate="30" ttp:frameRateMultiplier=" "><body><div><p begin="00:00:01:15" end="20f">x</p></div></body></tt>`,
+	`<tt ttp:frameRate="25" ttp:frameRateMultiplier="0 0" ttp:subFrameRate="0" ttp:tickRate="0" ttp:timeBase="smpte" ttp:dropMode="dropNTSC"><body><div><p begin="00:00:01:15.5" end="10t">x</p></div></body></tt>`,
+	`<tt ttp:frameRate="24" ttp:frameRateMultiplier="1000 1001 7" ttp:clockMode="utc" ttp:markerMode="discontinuous" ttp:pixelAspectRatio="1" ttp:cellResolution="0 0" xml:space="preserve"><body timeContainer="seq"><div><p begin="00:00:01:23" end="00:00:02:00" dur="x">x</p></div></body></tt>`,
 	`<tt><head><layout><region id="r" style="nope"/></layout></head><body><div><p begin="1s" end="2s">x</p></div></body></tt>`,
 	`<tt><body><div><p begin="1s" end="2s"><span><span>nested</span><br/></span><br/><br/></p></div></body></tt>`,
 	`<tt><body><div><p begin="1s" end="2s"><p begin="1s">nested p</p></p></div></body></tt>`,
@@ -583,6 +587,9 @@ func TestC08(t *testing.T) {
 		format := format
 		rapidCheck(t, "C08/read-"+format, tier(2500, 250000), func(rt *rapid.T) {
 			doc, o := genHostileDoc(rt, format)
+			if format == "ssa" {
+				o.SSAEntry = rapid.SampledFrom([]int{0, 1, 1, 2}).Draw(rt, "ssaentry")
+			}
 			c := c08Case{Format: format, Doc: doc, Opts: o}
 			if rapid.IntRange(0, 9).Draw(rt, "viaopen") == 0 {
 				c.Format, c.Ext = "open", rapid.SampledFrom([]string{format, strings.ToUpper(format)}).Draw(rt, "ext")
